@@ -5,6 +5,7 @@ package main
 // for string, number and binary key attributes, and a later read of the whole table tells whether stored state changed.
 
 import (
+	"errors"
 	"fmt"
 	"sort"
 	"strings"
@@ -16,6 +17,7 @@ import (
 	ddb1 "github.com/aws/aws-sdk-go/service/dynamodb"
 	c1 "github.com/truora/minidyn/aws-v1/client"
 	c2 "github.com/truora/minidyn/aws-v2/client"
+	mtypes "github.com/truora/minidyn/types"
 )
 
 var pokeKeyDirs = []string{"lek_scan_output", "lek_query_index_output", "update_key_input", "esk_input"}
@@ -229,4 +231,135 @@ func pokeKeyV1(dir, kind string) (visible bool, note string) {
 		return before != v1All(cl), ""
 	}
 	return false, "unknown direction"
+}
+
+// ---------- the item carried by a failed condition ----------
+// A conditional PutItem / DeleteItem that fails hands an error value to the caller; when that error carries the stored item
+// (ReturnValuesOnConditionCheckFailure, or a core error that reaches the caller unmapped) it is a structure returned by the
+// library like any other: writing through it must not change what later reads return.
+
+func mtPoke(kind string, item map[string]*mtypes.Item) {
+	a := item["a"]
+	if a == nil {
+		item["a"] = &mtypes.Item{S: aws.String("POKED")}
+		return
+	}
+	if a.S != nil {
+		*a.S = "POKED"
+	}
+	if a.N != nil {
+		*a.N = "424242"
+	}
+	if a.BOOL != nil {
+		*a.BOOL = !*a.BOOL
+	}
+	if a.NULL != nil {
+		*a.NULL = !*a.NULL
+	}
+	for i := range a.B {
+		a.B[i] ^= 0x5a
+	}
+	for _, p := range a.SS {
+		if p != nil {
+			*p = "POKED"
+		}
+	}
+	for _, p := range a.NS {
+		if p != nil {
+			*p = "424242"
+		}
+	}
+	for _, b := range a.BS {
+		for i := range b {
+			b[i] ^= 0x5a
+		}
+	}
+	for _, e := range a.L {
+		if e != nil {
+			if e.S != nil {
+				*e.S = "POKED"
+			}
+			for i := range e.B {
+				e.B[i] ^= 0x5a
+			}
+		}
+	}
+	if a.L != nil {
+		a.L = append(a.L, &mtypes.Item{S: aws.String("POKED")})
+		item["a"].L = a.L
+	}
+	for _, e := range a.M {
+		if e != nil {
+			if e.S != nil {
+				*e.S = "POKED"
+			}
+			for i := range e.B {
+				e.B[i] ^= 0x5a
+			}
+		}
+	}
+	if a.M != nil {
+		a.M["poked"] = &mtypes.Item{S: aws.String("POKED")}
+	}
+	item["poked"] = &mtypes.Item{S: aws.String("x")}
+}
+
+func pokeCondV1(kind string, del bool) (visible bool, note string) {
+	cl := c1.NewClient()
+	if err := c1.AddTable(cl, "tbl", "h", ""); err != nil {
+		return false, err.Error()
+	}
+	item := map[string]*ddb1.AttributeValue{"h": {S: aws.String("k")}, "a": v1Value(kind)}
+	if _, err := cl.PutItem(&ddb1.PutItemInput{TableName: aws.String("tbl"), Item: item}); err != nil {
+		return false, err.Error()
+	}
+	var err error
+	if del {
+		_, err = cl.DeleteItem(&ddb1.DeleteItemInput{TableName: aws.String("tbl"), Key: map[string]*ddb1.AttributeValue{"h": {S: aws.String("k")}},
+			ConditionExpression: aws.String("attribute_not_exists(h)")})
+	} else {
+		_, err = cl.PutItem(&ddb1.PutItemInput{TableName: aws.String("tbl"), Item: map[string]*ddb1.AttributeValue{"h": {S: aws.String("k")}},
+			ConditionExpression: aws.String("attribute_not_exists(h)")})
+	}
+	if err == nil {
+		return false, "the conditional write did not fail"
+	}
+	before := v1Snapshot(cl)
+	var cf *mtypes.ConditionalCheckFailedException
+	if errors.As(err, &cf) && cf.Item != nil {
+		mtPoke(kind, cf.Item)
+	}
+	return before != v1Snapshot(cl), ""
+}
+
+func pokeCondV2(kind string, del bool) (visible bool, note string) {
+	cl := c2.NewClient()
+	if err := c2.AddTable(ctx, cl, "tbl", "h", ""); err != nil {
+		return false, err.Error()
+	}
+	key := map[string]t2.AttributeValue{"h": &t2.AttributeValueMemberS{Value: "k"}}
+	if _, err := cl.PutItem(ctx, &ddb2.PutItemInput{TableName: v2aws.String("tbl"), Item: map[string]t2.AttributeValue{"h": key["h"], "a": v2Value(kind)}}); err != nil {
+		return false, err.Error()
+	}
+	var err error
+	if del {
+		_, err = cl.DeleteItem(ctx, &ddb2.DeleteItemInput{TableName: v2aws.String("tbl"), Key: key, ConditionExpression: v2aws.String("attribute_not_exists(h)"),
+			ReturnValuesOnConditionCheckFailure: t2.ReturnValuesOnConditionCheckFailureAllOld})
+	} else {
+		_, err = cl.PutItem(ctx, &ddb2.PutItemInput{TableName: v2aws.String("tbl"), Item: key, ConditionExpression: v2aws.String("attribute_not_exists(h)"),
+			ReturnValuesOnConditionCheckFailure: t2.ReturnValuesOnConditionCheckFailureAllOld})
+	}
+	if err == nil {
+		return false, "the conditional write did not fail"
+	}
+	before := v2Snapshot(cl)
+	var cf *t2.ConditionalCheckFailedException
+	if errors.As(err, &cf) && cf.Item != nil {
+		v2Poke(kind, cf.Item)
+	}
+	var cfc *mtypes.ConditionalCheckFailedException
+	if errors.As(err, &cfc) && cfc.Item != nil {
+		mtPoke(kind, cfc.Item)
+	}
+	return before != v2Snapshot(cl), ""
 }
